@@ -27,7 +27,7 @@ func init() { core.Register(check{}) }
 func (check) ID() string    { return "C03" }
 func (check) Level() string { return "exploration" }
 func (check) Rule() string {
-	return "bounded-exhaustive, simplest first: every scalar type x value alphabet (int boundaries; finite doubles incl. -0, subnormals, 1e21/1e-7 format switches, NaN/+-Inf classes; strings with controls, quotes, backslashes, U+2028/9, non-BMP, invalid UTF-8, lengths 7..65 and 127..4097 with a special rune at block boundaries; binaries of every base64 padding class) x position (field, list/set element, map value, map key, top level) x all 2^4 subsets of {Int642String, ByteAsUint8, NoBase64Binary, EnableValueMapping}; every shape of T(1) u T(2) x container size 0..3; unknown fields of 9 kinds at every position x {DisallowUnknownField, UseNativeSkip}; alias keys (api.key, go.tag, name-case); api.js_conv fields; response base extraction; ConvertException; all 2^8 option subsets on a mixed message; each message through Do and DoInto with cap = 2*len(src)+k for every k of the tier range and with undersized buffers. A case is one (program, message, option set); non-trivial when distinct by those. Later additions: histories of length 2, SetOptions twin, arena-backed DoInto buffers, api.js_conv structs below the root, overwriting of the pooled buffers right after Do."
+	return "bounded-exhaustive, simplest first: every scalar type x value alphabet (int boundaries; finite doubles incl. -0, subnormals, 1e21/1e-7 format switches, NaN/+-Inf classes; strings with controls, quotes, backslashes, U+2028/9, non-BMP, invalid UTF-8, lengths 7..65 and 127..4097 with a special rune at block boundaries; binaries of every base64 padding class) x position (field, list/set element, map value, map key, top level) x all 2^4 subsets of {Int642String, ByteAsUint8, NoBase64Binary, EnableValueMapping}; every shape of T(1) u T(2) x container size 0..3; unknown fields of 9 kinds at every position x {DisallowUnknownField, UseNativeSkip}; alias keys (api.key, go.tag, name-case); api.js_conv fields; response base extraction; ConvertException; all 2^8 option subsets on a mixed message; each message through Do and DoInto with cap = 2*len(src)+k for every k of the tier range and with undersized buffers. A case is one (program, message, option set); non-trivial when distinct by those. Later additions: histories of length 2, SetOptions twin, arena-backed DoInto buffers, api.js_conv structs below the root, overwriting of the pooled buffers right after Do. Round 11: every control character on its own (shared string alphabet)."
 }
 
 func (check) Assumptions() []string {
